@@ -22,8 +22,8 @@ from fractions import Fraction
 
 ID = "C20"
 DRIVER = "drv_c20"
-LEAN_TARGETS = ["PharmpyProofs.C20.Properties", "drv_c20"]
-PROPERTIES = ["PharmpyProofs/C20/Properties.lean"]
+LEAN_TARGETS = ["PharmpyProofs.C20.Properties", "PharmpyProofs.C20.CovProperties", "drv_c20"]
+PROPERTIES = ["PharmpyProofs/C20/Properties.lean", "PharmpyProofs/C20/CovProperties.lean"]
 LEAN_SOURCES = ["PharmpyModel/C20/*.lean", "PharmpyModel/Generated/ExtCodes.lean", "PharmpyProofs/C20/*.lean",
                 "Drivers/C20.lean", "PharmpyModel/Core/Sexp.lean"]
 TIME_LIMIT = {"quick": 900, "thorough": 3000}
@@ -493,11 +493,43 @@ def apply_muts(lines, muts):
     return lines
 
 
+def gen_corr_structure(rng, n):
+    """a: mixing matrix (correlation structure = normalised a a^T + n I, eigenvalues well away from 0);
+    blocks: exact zero correlations between different blocks"""
+    a = [[round(rng.uniform(-1, 1), 3) for _ in range(n)] for _ in range(n)]
+    nb = rng.choice([1, 1, 2, 3])
+    blocks = [rng.randrange(nb) for _ in range(n)]
+    return a, blocks
+
+
+def gen_scales(rng, n):
+    """standard deviations spread over many decades within one matrix (units!): (co)variances from 1e-14 to 1e6"""
+    r = rng.random()
+    if r < 0.25:
+        return [10 ** rng.uniform(-1, 1) for _ in range(n)]          # ordinary
+    if r < 0.5:
+        return [10 ** rng.uniform(-7, -3.5) for _ in range(n)]       # everything small (variances < 1e-7)
+    return [10 ** rng.uniform(-7, 3) for _ in range(n)]              # mixed
+
+
 def gen_relations(rng):
     n = rng.randint(2, 6)
-    a = [[rng.uniform(-1, 1) for _ in range(n)] for _ in range(n)]
-    scale = [10 ** rng.uniform(-3, 2) for _ in range(n)]
-    return {"kind": "relations", "a": a, "scale": scale}
+    a, blocks = gen_corr_structure(rng, n)
+    return {"kind": "relations", "a": a, "blocks": blocks, "scale": gen_scales(rng, n),
+            "rescale": [rng.randint(-40, 40) for _ in range(n)]}
+
+
+def gen_rundir(rng):
+    """a complete run directory (mod, csv, lst, ext and any non-empty subset of cov/cor/coi)"""
+    nth = rng.randint(1, 4)
+    nom = rng.randint(1, min(2, nth))
+    n = nth + nom + 1
+    a, blocks = gen_corr_structure(rng, n)
+    files = rng.choice([["cov"], ["cov", "coi"], ["coi"], ["cor"], ["cov", "cor"], ["cov", "cor", "coi"], ["cor", "coi"]])
+    est = [10 ** rng.uniform(-4, 2) for _ in range(n)]
+    rel = [10 ** rng.uniform(-2.5, -0.7) for _ in range(n)]       # relative standard errors
+    return {"kind": "rundir", "nth": nth, "nom": nom, "a": a, "blocks": blocks, "est": est,
+            "se": [e * r for e, r in zip(est, rel)], "files": files}
 
 
 def gen_json(rng):
@@ -530,8 +562,10 @@ def gen_cases(rng, n, tier):
             c = gen_cov(rng, hostile)
         elif r < 0.92:
             c = gen_generic(rng, hostile)
-        elif r < 0.97:
+        elif r < 0.95:
             c = gen_relations(rng)
+        elif r < 0.975:
+            c = gen_rundir(rng)
         else:
             c = gen_json(rng)
         if c["kind"] in ("ext", "phi", "cov", "generic"):
@@ -1191,46 +1225,277 @@ def mon_phi(n, spec, case, t, mon, tags):
                     return
 
 
-def run_relations(case, mon, tags):
+def corr_structure(case):
     n = len(case["a"])
     a = np.array(case["a"])
-    d = np.diag(case["scale"])
-    cov = d @ (a @ a.T + 0.5 * np.eye(n)) @ d
+    m = a @ a.T + n * np.eye(n)
+    b = np.array(case["blocks"])
+    m = m * (b[:, None] == b[None, :])          # exact zeros between blocks (each block stays positive definite)
+    d = np.sqrt(np.diag(m))
+    return m / np.outer(d, d)
+
+
+def frac_rows(m):
+    return [[str(Fraction(float(x))) for x in r] for r in m]
+
+
+def run_relations(case, drv, k, mon, tags):
+    """cov2corr / corr2cov and the conversions built on them, evaluated scale-free (on the correlation scale)"""
+    from pharmpy.internals.math import cov2corr, corr2cov
+    from pharmpy.tools.external.nonmem.results import calculate_cov_cor_coi_ses
+    n = len(case["a"])
+    R = corr_structure(case)
+    sd0 = np.array(case["scale"])
+    cov = R * np.outer(sd0, sd0)
+    cov = (cov + cov.T) / 2
     names = [f"P{i}" for i in range(n)]
     covdf = pd.DataFrame(cov, index=names, columns=names)
-    tags.append(f"relations:n={n}")
-    from pharmpy.tools.external.nonmem.results import calculate_cov_cor_coi_ses
-
-    def close(x, y, what, scale):
-        """|x - y| <= 1e-8 * scale elementwise (scale = natural magnitude of each entry)"""
-        x, y = np.asarray(x, dtype=float), np.asarray(y, dtype=float)
-        if x.shape != y.shape or not np.all(np.abs(x - y) <= 1e-8 * scale):
-            mon.append({"cls": "relations-" + what, "what": f"{what}: defining relation violated beyond 1e-8 (n={n})"})
-            return False
-        return True
     sd = np.sqrt(np.diag(cov))
+    tags.append(f"relations:n={n}")
+    tags.append("relations:min-var=1e%d" % int(np.floor(np.log10(np.diag(cov).min()))))
+    if np.any(cov == 0):
+        tags.append("relations:exact-zeros")
+
+    def bad(cls, what):
+        mon.append({"cls": "relations-" + cls, "what": f"{what} (n={n}, variances {np.diag(cov).min():.1e}..{np.diag(cov).max():.1e})"})
+
+    def check_cor(r, c, src, tol):
+        """r is the correlation matrix of c: unit diagonal, r_ij * sd_i * sd_j = c_ij, zero iff zero"""
+        r, c = np.asarray(r, dtype=float), np.asarray(c, dtype=float)
+        s_ = np.sqrt(np.diag(c))
+        if r.shape != c.shape:
+            return bad("cor-shape", f"{src}: shape {r.shape}")
+        if not np.all(np.abs(np.diag(r) - 1) <= 1e-12):
+            return bad("cor-diag-not-one", f"{src}: diagonal of the correlation matrix is {np.diag(r)} for positive variances {np.diag(c)}")
+        want = c / np.outer(s_, s_)
+        if not np.all(np.abs(r - want) <= tol):
+            i, j = np.unravel_index(np.argmax(np.abs(r - want)), r.shape)
+            return bad("cor-not-cov-over-sd", f"{src}: cor[{i},{j}] = {r[i, j]!r}, cov[{i},{j}]/(se_i se_j) = {want[i, j]!r} (cov = {c[i, j]!r})")
+        if not np.all(np.abs(r - r.T) <= tol):
+            return bad("cor-asymmetric", f"{src}: correlation matrix not symmetric")
+        return True
+
+    # --- cov2corr itself, K against the exact rational model
+    try:
+        r = cov2corr(cov.copy())
+    except Exception as e:  # noqa
+        mon.append({"cls": "internal-error", "what": f"cov2corr raised {type(e).__name__}: {e}"})
+        return
+    check_cor(r, cov, "cov2corr(cov)", 1e-12)
+    if drv is not None:
+        table = [[str(Fraction(float(cov[i, i]))), str(Fraction(float(sd[i])))] for i in range(n)]
+        ans = drv.ask(["cov2corr", frac_rows(cov), table])
+        for i in range(n):
+            for j in range(n):
+                m = float(Fraction(ans[i][j]))
+                if abs(m - r[i, j]) > 1e-12 * max(1.0, abs(m)):
+                    k.append(f"cov2corr[{i},{j}]: model {m!r} code {r[i, j]!r} (cov {cov[i, j]!r})")
+                    break
+            else:
+                continue
+            break
+        ans = drv.ask(["corr2cov", frac_rows(R), [str(Fraction(float(x))) for x in sd0]])
+        c2 = corr2cov(R, sd0)
+        for i in range(n):
+            for j in range(n):
+                m = float(Fraction(ans[i][j]))
+                if abs(m - c2[i, j]) > 1e-12 * abs(m):
+                    k.append(f"corr2cov[{i},{j}]: model {m!r} code {c2[i, j]!r}")
+    # --- scale invariance (metamorphic; powers of two are exact in binary floating point)
+    d2 = np.array([2.0 ** e for e in case["rescale"]])
+    r2 = cov2corr(cov * np.outer(d2, d2))
+    if not np.all(np.abs(r2 - r) <= 1e-12):
+        i, j = np.unravel_index(np.argmax(np.abs(r2 - r)), r.shape)
+        bad("cor-scale-dependent", f"cov2corr(D cov D)[{i},{j}] = {r2[i, j]!r} but cov2corr(cov)[{i},{j}] = {r[i, j]!r} for D = diag(2^{case['rescale']})")
+    # --- round trip cov -> cor -> cov
+    c3 = corr2cov(r, sd)
+    if not np.all(np.abs(c3 - cov) <= 1e-12 * np.outer(sd, sd)):
+        bad("cov-not-d-cor-d", "corr2cov(cov2corr(cov), se) differs from cov")
+    # --- what results.py reports together, from each possible set of files
     for start in ("cov", "cor", "coi"):
         try:
             if start == "cov":
-                c, r, p, s = calculate_cov_cor_coi_ses(covdf, None, None, None)
+                c, r_, p, s_ = calculate_cov_cor_coi_ses(covdf, None, None, None)
             elif start == "cor":
-                cordf = pd.DataFrame(cov / np.outer(sd, sd), index=names, columns=names)
-                c, r, p, s = calculate_cov_cor_coi_ses(None, cordf, None, pd.Series(sd, index=names))
+                cordf = pd.DataFrame(R.copy(), index=names, columns=names)
+                c, r_, p, s_ = calculate_cov_cor_coi_ses(None, cordf, None, pd.Series(sd0, index=names))
             else:
-                coidf = pd.DataFrame(np.linalg.inv(cov), index=names, columns=names)
-                c, r, p, s = calculate_cov_cor_coi_ses(None, None, coidf, None)
+                # precision matrix computed on the correlation scale (well conditioned), then rescaled exactly
+                coi = np.linalg.inv(R) / np.outer(sd0, sd0)
+                coidf = pd.DataFrame(coi, index=names, columns=names)
+                c, r_, p, s_ = calculate_cov_cor_coi_ses(None, None, coidf, None)
         except Exception as e:  # noqa
             mon.append({"cls": "internal-error", "what": f"calculate_cov_cor_coi_ses from {start} raised {type(e).__name__}: {e}"})
             continue
-        cv, rv, pv, sv = c.values, r.values, p.values, np.asarray(s.values, dtype=float)
-        close(sv, np.sqrt(np.diag(cv)), f"se-from-{start}", sd)
-        close(rv, cv / np.outer(sv, sv), f"cor-from-{start}", 1.0)
-        # coi * cov = I, checked on the correlation scale (conditioning of the correlation matrix only)
-        close((pv * np.outer(sd, sd)) @ (cv / np.outer(sd, sd)), np.eye(n), f"coi-from-{start}", 1.0)
-        close(cv, cov, f"cov-from-{start}", np.outer(sd, sd))
-        for df_ in (c, r, p):
+        cv, rv, pv, sv = c.values, r_.values, p.values, np.asarray(s_.values, dtype=float)
+        # np.linalg.inv of a badly scaled matrix loses accuracy with the spread of the scales: tolerance on the
+        # correlation scale, looser when an inverse was taken
+        tol = 1e-9 if start != "coi" else 1e-5
+        if not np.all(np.abs(sv / np.sqrt(np.diag(cv)) - 1) <= 1e-9):
+            bad(f"se-from-{start}", f"from {start}: se != sqrt(diag(cov))")
+        check_cor(rv, cv, f"correlation matrix reported with the covariance matrix (from {start})", tol)
+        if not np.all(np.abs(cv / np.outer(sd, sd) - R) <= (1e-9 if start != "coi" else 1e-5)):
+            bad(f"cov-from-{start}", f"from {start}: covariance matrix differs from the true one")
+        ident = (pv * np.outer(sd, sd)) @ (cv / np.outer(sd, sd))
+        if not np.all(np.abs(ident - np.eye(n)) <= 1e-5):
+            bad(f"coi-from-{start}", f"from {start}: coi . cov != I (correlation scale)")
+        for df_ in (c, r_, p):
             if list(df_.index) != names or list(df_.columns) != names:
-                mon.append({"cls": "relations-labels", "what": f"labels lost computing from {start}"})
+                bad("labels", f"labels lost computing from {start}")
+
+
+def sci_cell(x, d=5):
+    """the cell NONMEM prints for x (1PE13.5)"""
+    if x == 0:
+        return ["s", False, d, 0, 0]
+    t = f"{abs(x):.{d}E}"
+    mant, exp = t.split("E")
+    return ["s", x < 0, d, int(mant.replace(".", "")), int(exp)]
+
+
+RUN_LST = """Mon Jan  1 10:00:00 CET 2024
+$PROBLEM run
+1NONLINEAR MIXED EFFECTS MODEL PROGRAM (NONMEM) VERSION 7.4.2
+ ORIGINALLY DEVELOPED BY STUART BEAL, LEWIS SHEINER, AND ALISON BOECKMANN
+1
+ #TBLN:      1
+ #METH: First Order Conditional Estimation with Interaction
+ #TERM:
+0MINIMIZATION SUCCESSFUL
+ NO. OF FUNCTION EVALUATIONS USED:      107
+ NO. OF SIG. DIGITS IN FINAL EST.:  3.6
+ #TERE:
+ Elapsed estimation  time in seconds:     0.32
+ Elapsed covariance  time in seconds:     0.28
+ Elapsed postprocess time in seconds:     0.09
+1
+ #OBJV:********************************************      586.276       **************************************************
+1
+Stop Time:
+Mon Jan  1 10:00:04 CET 2024
+"""
+
+
+def run_rundir(case, mon, tags):
+    """read_modelfit_results on a complete run directory: what is reported together must be consistent, whatever
+    subset of .cov/.cor/.coi exists and whatever the units of the parameters"""
+    from pharmpy.model import Model
+    from pharmpy.tools.external.nonmem.results import parse_modelfit_results
+    nth, nom = case["nth"], case["nom"]
+    n = nth + nom + 1
+    files = case["files"]
+    tags.append("rundir:" + "+".join(files))
+    # NONMEM order THETA, SIGMA, OMEGA (diagonal omegas only: no unused off-diagonals when nom == 1)
+    om_labels = tri_labels("OMEGA", nom)
+    nm = [f"THETA{i+1}" for i in range(nth)] + ["SIGMA(1,1)"] + om_labels
+    est_par = [f"THETA{i+1}" for i in range(nth)] + ["SIGMA(1,1)"] + [f"OMEGA({i+1},{i+1})" for i in range(nom)]
+    R = corr_structure(case)
+    se = np.array([float(cell_value(sci_cell(x))) for x in case["se"]])
+    est = dict(zip(est_par, case["est"]))
+    sed = dict(zip(est_par, se))
+    idx = {lab: i for i, lab in enumerate(est_par)}
+    cov_e = R * np.outer(se, se)
+    covw = np.array([[float(cell_value(sci_cell(x))) for x in r] for r in cov_e])
+    covw = (covw + covw.T) / 2
+    corw = np.array([[float(cell_value(sci_cell(x))) for x in r] for r in R])
+    coiw = np.array([[float(cell_value(sci_cell(x))) for x in r] for r in np.linalg.inv(R) / np.outer(se, se)])
+    tags.append("rundir:min-var=1e%d" % int(np.floor(np.log10(np.diag(covw).min()))))
+
+    def full(m):
+        """estimated-parameter matrix -> NONMEM's full table (unused off-diagonal omegas: zero rows/columns)"""
+        return [[(m[idx[a], idx[b]] if a in idx and b in idx else 0.0) for b in nm] for a in nm]
+    title = {"method": "First Order Conditional Estimation with Interaction", "design": None, "goal": None, "nums": [1, 0, 0, 0, 0, 0]}
+
+    def matrix_lines(m):
+        tab = {"number": 1, "now": 6, "title": title, "hw": 13, "names": ["NAME"] + nm, "cols": [[13, "l"]] + [[13, "r"]] * len(nm),
+               "rows": [[["l", a]] + [sci_cell(x) for x in row] for a, row in zip(nm, full(m))]}
+        return [render_title(tab)] + render_body(tab)
+
+    def ext_lines():
+        def row(it, f, obj):
+            return [["i", it]] + [sci_cell(f(lab)) for lab in nm] + [obj]
+        e = lambda lab: est.get(lab, 0.0)
+        isvar = lambda lab: not lab.startswith("THETA")
+        rows = [row(0, lambda lab: 1.1 * e(lab), ["f", False, 587, 14, 36644134661617]),
+                row(9, e, ["f", False, 586, 14, 27605628188053]),
+                row(C_FINAL, e, ["f", False, 586, 14, 27605628188053]),
+                row(C_SE, lambda lab: sed.get(lab, 1e10), ["f", False, 0, 16, 0]),
+                row(C_SDCORR, lambda lab: (np.sqrt(e(lab)) if isvar(lab) and lab in est else 0.0), ["f", False, 0, 16, 0]),
+                row(C_SDCORR_SE, lambda lab: (sed[lab] / (2 * np.sqrt(e(lab))) if isvar(lab) and lab in est else (0.0 if lab in est else 1e10)), ["f", False, 0, 16, 0]),
+                row(C_FIXED, lambda lab: 0.0 if lab in est else 1.0, ["f", False, 0, 16, 0])]
+        tab = {"number": 1, "now": 6, "title": title, "hw": 13, "names": ["ITERATION"] + nm + ["OBJ"],
+               "cols": [[13, "r"]] * (1 + len(nm)) + [[22, "r"]], "rows": rows}
+        return [render_title(tab)] + render_body(tab)
+    pred = [f"P{i+1} = THETA({i+1})" + (f"*EXP(ETA({i+1}))" if i < nom else "") for i in range(nth)]
+    mod = ["$PROBLEM run", "$INPUT ID TIME DV", "$DATA run1.csv IGNORE=@", "$PRED"] + pred + \
+          ["Y = " + "+".join(f"P{i+1}" for i in range(nth)) + " + EPS(1)"] + \
+          [f"$THETA (0,{sci_to_str(est[f'THETA{i+1}'])})" for i in range(nth)] + \
+          [f"$OMEGA {sci_to_str(est[f'OMEGA({i+1},{i+1})'])}" for i in range(nom)] + \
+          [f"$SIGMA {sci_to_str(est['SIGMA(1,1)'])}", "$ESTIMATION METHOD=1 INTER", "$COVARIANCE"]
+    root = scratch_root() / f"c20-run-{os.getpid()}"
+    root.mkdir(parents=True, exist_ok=True)
+    try:
+        (root / "run1.mod").write_text("\n".join(mod) + "\n")
+        (root / "run1.csv").write_text("ID,TIME,DV\n1,0,1.0\n1,1,2.0\n2,0,1.5\n2,1,2.5\n")
+        (root / "run1.lst").write_text(RUN_LST)
+        (root / "run1.ext").write_text("\n".join(ext_lines()) + "\n")
+        for f, m in (("cov", covw), ("cor", corw), ("coi", coiw)):
+            if f in files:
+                (root / f"run1.{f}").write_text("\n".join(matrix_lines(m)) + "\n")
+        try:
+            import warnings
+            with warnings.catch_warnings():
+                warnings.simplefilter("ignore")
+                model = Model.parse_model(root / "run1.mod")
+                res = parse_modelfit_results(model, root / "run1.mod")
+        except Exception as e:  # noqa
+            if "cor" in files and isinstance(e, ValueError) and "read-only" in str(e):
+                # decidable witness class: a run directory that contains a .cor file (covariance step successful)
+                mon.append({"cls": "rundir-cor-file-read-only",
+                            "what": f"files {files}: parse_modelfit_results raised ValueError: {e} (np.fill_diagonal(cor.values, 1))"})
+            else:
+                mon.append({"cls": "internal-error", "what": f"parse_modelfit_results raised {type(e).__name__}: {e}"})
+            return
+    finally:
+        shutil.rmtree(root, ignore_errors=True)
+    if res is None or res.covariance_matrix is None or res.correlation_matrix is None or res.precision_matrix is None \
+            or res.standard_errors is None:
+        mon.append({"cls": "rundir-missing", "what": f"files {files}: covariance/correlation/precision/standard errors not all reported"})
+        return
+    # pharmpy order: THETA, OMEGA, SIGMA
+    order = [idx[f"THETA{i+1}"] for i in range(nth)] + [idx[f"OMEGA({i+1},{i+1})"] for i in range(nom)] + [idx["SIGMA(1,1)"]]
+    cv, rv, pv = res.covariance_matrix.values, res.correlation_matrix.values, res.precision_matrix.values
+    sv = np.asarray(res.standard_errors.values, dtype=float)
+    if cv.shape != (n, n) or rv.shape != (n, n) or pv.shape != (n, n) or sv.shape != (n,):
+        mon.append({"cls": "rundir-shape", "what": f"files {files}: shapes {cv.shape} {rv.shape} {pv.shape} {sv.shape}, {n} estimated parameters"})
+        return
+    sw = se[order]
+    info = f"files {files}, standard errors {sw.min():.1e}..{sw.max():.1e}"
+    # numbers are the numbers of the files (6 significant digits)
+    if not np.all(np.abs(sv / sw - 1) <= 1e-9):
+        mon.append({"cls": "rundir-se", "what": f"{info}: standard_errors differ from row -1000000001"})
+    if "cov" in files and not np.all(np.abs(cv - covw[np.ix_(order, order)]) <= 1e-6 * np.outer(sw, sw)):
+        mon.append({"cls": "rundir-cov", "what": f"{info}: covariance_matrix differs from the .cov file"})
+    # defining relations, on the correlation scale.  Derived quantities must be consistent to rounding error of the
+    # arithmetic; quantities read from two files agree to the printed precision only.
+    derived_cor = "cor" not in files
+    tol = 1e-9 if derived_cor and ("cov" in files) else 3e-4
+    dd = np.sqrt(np.diag(cv))
+    if not np.all(np.abs(np.diag(rv) - 1) <= 1e-12):
+        mon.append({"cls": "relations-cor-diag-not-one", "what": f"{info}: diagonal of correlation_matrix is {np.diag(rv)}"})
+    elif not np.all(np.abs(rv - cv / np.outer(dd, dd)) <= tol):
+        i, j = np.unravel_index(np.argmax(np.abs(rv - cv / np.outer(dd, dd))), rv.shape)
+        mon.append({"cls": "relations-cor-not-cov-over-sd",
+                    "what": f"{info}: correlation_matrix[{i},{j}] = {rv[i, j]!r} but cov/(se_i se_j) = {(cv / np.outer(dd, dd))[i, j]!r} (cov = {cv[i, j]!r})"})
+    if not np.all(np.abs(dd / sv - 1) <= 3e-4):
+        mon.append({"cls": "relations-se-not-sqrt-diag-cov", "what": f"{info}: standard_errors vs sqrt(diag(covariance_matrix))"})
+    ident = (pv * np.outer(sw, sw)) @ (cv / np.outer(sw, sw))
+    if not np.all(np.abs(ident - np.eye(n)) <= 2e-3):
+        mon.append({"cls": "relations-coi-not-inverse", "what": f"{info}: precision_matrix . covariance_matrix != I (max dev {np.abs(ident - np.eye(n)).max():.2e})"})
+
+
+def sci_to_str(x):
+    return render_cell(sci_cell(x))
 
 
 def run_json(case, mon, tags):
@@ -1293,8 +1558,11 @@ def run_case(case, drv):
     k, mon, tags = [], [], []
     kind = case["kind"]
     tags.append("kind:" + kind)
+    if kind == "rundir":
+        run_rundir(case, mon, tags)
+        return {"k": k, "mon": mon, "tags": tags, "nontrivial": True}
     if kind == "relations":
-        run_relations(case, mon, tags)
+        run_relations(case, drv, k, mon, tags)
         return {"k": k, "mon": mon, "tags": tags, "nontrivial": True}
     if kind == "json":
         run_json(case, mon, tags)
